@@ -5,10 +5,13 @@ import (
 	"encoding/json"
 	"flag"
 	"fmt"
+	"io"
 	"os"
 	"runtime"
 	"strconv"
 	"time"
+
+	"github.com/oasisprotocol/oasis-core/go/common/logging"
 
 	"verif/sim/core"
 	"verif/sim/props"
@@ -35,6 +38,11 @@ func envSeed() uint64 {
 func main() {
 	if len(os.Args) < 2 {
 		usage()
+	}
+	if os.Getenv("VERIF_DEBUG") != "" {
+		_ = logging.Initialize(os.Stderr, logging.FmtLogfmt, logging.LevelWarn, nil)
+	} else {
+		_ = logging.Initialize(io.Discard, logging.FmtLogfmt, logging.LevelError, nil)
 	}
 	switch os.Args[1] {
 	case "crashchild":
